@@ -440,7 +440,9 @@ def run(ctx):
     check_aref(ctx, db)
     C03.check_xy_continuation(ctx, db)   # a boundary split over several XY records re-loads completely
     C03.check_element_buffers(ctx, db)   # one PATH record per element, from a scratch array emptied per element
-    C03.check_reader_state(ctx, db)      # element-scoped reader state (WIDTH, ...) does not leak into the next element
+    C03.check_reader_state(ctx, db)
+    from . import C07   # FlexPath::to_gds starts with remove_overlapping_points: re-saving a loaded path must not merge grid-adjacent vertices
+    C07.check_bookkeeping(ctx, db)      # element-scoped reader state (WIDTH, ...) does not leak into the next element
 
 
 MANIFEST = dict(
